@@ -1828,3 +1828,59 @@ R("consume-error-logged", ["C13", "C12"],
   (CTRL, """	_ = rewardMaster.RewardCm.ConsumeRewards(totalConsumed)""", """	if err := rewardMaster.RewardCm.ConsumeRewards(totalConsumed); err != nil {
 		logger.Error("failed to book consumed rewards", err)
 	}"""))
+
+# ------------------------------------------------------------------ C08
+APPL = "app/application.go"
+M("endblock-commits-deliver-state", "C08", "C08.durable",
+  (CTRL, """			// Reset all cache after account data has been committed, that make sure node state consistent
+			app.Context.stateDB.Reset()""", """			// Reset all cache after account data has been committed, that make sure node state consistent
+			app.Context.stateDB.Reset()
+			app.Context.deliver.Commit()"""))
+M("state-write-saves-version", "C08", "C08.durable",
+  ("storage/state.go", """func (s State) Write() bool {""", """func (s State) Write() bool {
+	defer s.cs.Delivered.SaveVersion()"""))
+M("info-reports-previous-version", "C08", "C08.info",
+  (CTRL, """	hash, version = app.Context.chainstate.Hash, app.Context.chainstate.Version""",
+   """	hash, version = app.Context.chainstate.LastHash, app.Context.chainstate.LastVersion"""))
+M("version-bumped-outside-commit", "C08", "C08.info",
+  ("storage/state.go", """func (s State) Write() bool {""", """func (s State) Write() bool {
+	s.cs.Version++"""))
+M("prepare-skips-reward-options", "C08", "C08.reload",
+  (APPL, """		app.Context.rewardMaster.SetOptions(rewardsOpt)
+""", """		_ = rewardsOpt
+"""))
+M("prepare-fee-options-only-when-missing", "C08", "C08.reload",
+  (APPL, """		app.Context.feePool.SetupOpt(feeOpt)
+""", """		if app.Context.feePool.GetOpt() == nil {
+			app.Context.feePool.SetupOpt(feeOpt)
+		} else if app.header.Height > 1 {
+			return nil
+		}
+"""))
+M("prepare-proposal-options-from-config", "C08", "C08.reload",
+  (APPL, """		app.Context.proposalMaster.Proposal.SetOptions(propOpt)
+""", """		_ = propOpt
+		app.Context.proposalMaster.Proposal.SetOptions(app.Context.proposalMaster.Proposal.GetOptions())
+"""))
+M("finalize-requeues-failed", "C08", "C08.volatile",
+  ("app/internalTX.go", """		ok, err := ctx.transaction.DeleteFinalized(key)""", """		_ = ctx.transaction.AddFinalized(key+"_retry", tx)
+		ok, err := ctx.transaction.DeleteFinalized(key)"""))
+R("info-direct-fields", ["C08"],
+  (CTRL, """		ver, hash := app.getAppHash()
+""", """		ver, hash := app.Context.chainstate.Version, app.Context.chainstate.Hash
+"""))
+R("prepare-options-helper", ["C08"],
+  (APPL, """		feeOpt, err := app.Context.govern.WithHeight(app.header.Height).GetFeeOption()
+		if err != nil {
+			return err
+		}
+
+		app.Context.feePool.SetupOpt(feeOpt)
+""", """		gov := app.Context.govern.WithHeight(app.header.Height)
+		feeOpt, err := gov.GetFeeOption()
+		if err != nil {
+			return err
+		}
+		pool := app.Context.feePool
+		pool.SetupOpt(feeOpt)
+"""))
